@@ -83,7 +83,9 @@ def annotate_citations(
         # if we're applying to source_text, update offsets
         if offset_updater:
             start = offset_updater.update(start, bisect_right)
-            end = offset_updater.update(end, bisect_left)
+            # an empty span at an insertion point would otherwise end
+            # before it starts
+            end = max(start, offset_updater.update(end, bisect_left))
 
         # handle overlaps
         if start < last_end:
@@ -233,6 +235,11 @@ class SpanUpdater:
 
     def update(self, offset, bisect):
         """Shift an offset left or right."""
-        index = bisect(self.offsets, offset) - 1
+        if not self.offsets:
+            # text_before is empty, so there is nothing to shift
+            return offset
+        # offsets[0] is always 0; don't let bisect_left wrap around to the
+        # last updater for offset 0
+        index = max(bisect(self.offsets, offset) - 1, 0)
         updater = self.updaters[index]
         return updater(offset)
